@@ -242,7 +242,7 @@ func c08Oracle(r *Run, in c08Input, w *c08World, initial []c08SpeciesObs, obs c0
 				return
 			}
 			if math.IsNaN(d) {
-				return // a NaN distance (overflow in an extreme case): the order on distances is not total, skip
+				continue // a NaN distance is not below the threshold: that species is not a candidate
 			}
 			if d == thr {
 				boundary++
@@ -657,6 +657,18 @@ func runC08(r *Run) error {
 		add(in)
 	}
 	cf.Close("c08_mismatches")
+	// whole histories through the executor's phases: species die out and are founded over many generations; the
+	// placement rules are checked baby by baby against the species that existed at the turnover, and every newly
+	// founded species must carry an id this population never used (state left by earlier turnovers)
+	for k := 0; k < r.N(10, 120); k++ {
+		in := newEpochInput(r, "C08", 36, 30, true)
+		in.Opts.CompatThreshold = []float64{1, 2, 3}[k%3]
+		in.Opts.BabiesStolen = 0
+		in.Epochs = 20 + r.Rng.Intn(25)
+		res := runPhased(r, in)
+		r.Count(fmt.Sprint("history", in.Seed), res.multi > 0)
+		r.Hist("history_epochs_run", bucket(res.epochsRun))
+	}
 	return nil
 }
 
